@@ -194,9 +194,22 @@ impl Prop for C01 {
         vec!["accepted", "rejected-with-errors"]
     }
     fn extra_evidence(&self, tier: Tier, m: &Stats) -> Value {
+        // saturation: parser (loop site x current token kind) pairs reached by all class strings two symbols shorter
+        // than the bound, compared with the pairs reached by the whole run
+        let n = tier.pick(6, 8) - 2;
+        deb822_lossless::verif::reset_coverage();
+        let sp = SeqSpace::new(&DEB822_CLASSES, n, 0);
+        sp.explore(0, &mut |s, _| {
+            let _ = guard(budget_for(s.len()), || {
+                let _ = Deb822::from_str_relaxed(s);
+            });
+        });
+        let small: u64 = deb822_lossless::verif::coverage().iter().map(|c| c.count_ones() as u64).sum();
+        let full: u64 = m.coverage.iter().map(|c| c.count_ones() as u64).sum();
         json!({
             "class_validation": class_validation(tier),
             "trie_nodes": m.evaluations,
+            "abstract_coverage": {"parser_pairs_whole_run": full, "parser_pairs_class_strings_two_shorter": small, "length_two_shorter": n, "saturated": small == full},
         })
     }
 }
